@@ -297,6 +297,18 @@ def check_case(ctx, case, rng):
                     else:
                         ctx.violation("write-inverse", "dump-differs-from-model-dump",
                                       case_detail(case, cfg=cfgd, data=inp, got=d, want=dm))
+        # a default-constructed instance dumps as the model's zero value (no parse involved)
+        if not gen.has_union(top):
+            try:
+                d0 = T().dumps()
+                dz, _ = model.dump(top, model.default_value(top, cfg), cfg)
+                ctx.evaluation((case["text"], tuple(sorted(cfgd.items())), "default-dump"))
+                if d0 != dz:
+                    ctx.violation("write-inverse", "default-instance-dump-differs-from-model",
+                                  case_detail(case, cfg=cfgd, got=d0, want=dz))
+            except Exception as e:  # noqa: BLE001
+                ctx.violation("dump-raises", f"default-dump-raises:{type(e).__name__}",
+                              case_detail(case, cfg=cfgd, error=lib.exc_sig(e)))
         # constructed values that fit: dump must equal the model's dump
         if not gen.has_union(top):
             for _ in range(2):
